@@ -1,10 +1,12 @@
 use crate::run::Suite;
 use std::path::Path;
 
+pub mod c20;
 pub mod c21;
 
 pub fn for_property(p: &str) -> Vec<Suite> {
     match p {
+        "C20" => c20::suites(),
         "C21" => c21::suites(),
         _ => vec![],
     }
